@@ -16,13 +16,14 @@ import (
 const modPath = "go.sia.tech/core"
 
 type Program struct {
-	Fset   *token.FileSet
-	Pkgs   []*packages.Package
-	SSA    *ssa.Program
-	ByPath map[string]*packages.Package
-	Funcs  map[string]*ssa.Function // by ssa String()
-	Store  *ContractStore
-	Repo   string
+	Fset     *token.FileSet
+	Pkgs     []*packages.Package
+	SSA      *ssa.Program
+	ByPath   map[string]*packages.Package
+	Funcs    map[string]*ssa.Function // by ssa String()
+	Store    *ContractStore
+	Repo     string
+	codecSet map[string]bool
 }
 
 func LoadProgram(repo string, patterns ...string) (*Program, error) {
